@@ -653,6 +653,8 @@ func Run(r *evid.Run) {
 	tm["setup"] = time.Duration(evTime[nEv].Load()).String()
 	tm["convergence"] = time.Duration(evTime[nEv+1].Load()).String()
 	r.Extra("cumulative_time_from_event_start_to_schedule_end", tm)
+	runRestartDuringPoll(r)
+	r.Rule("worker restart during a poll: the worker's own routines run (real Start, lease interval 100ms), its first replication stream (message limit 300 bytes, a leader history of 12 compare-and-swap transactions) is held after k messages, k = 1..6; the worker is closed (Close may return whenever it likes), a new worker catches up, the held stream is let go: the follower's content equals the leader's at its recorded index, which does not move backwards")
 	// table sets on one more pair
 	if p, err := newPair(0, []uint64{0}); err == nil {
 		p.runTableSet(r)
@@ -661,6 +663,227 @@ func Run(r *evid.Run) {
 	r.Assume("single-node leader and follower clusters; multi-node follower clusters (lease hand-over from a lagging replica) and proposals that time out yet commit are not explored (inside dragonboat)")
 	r.Assume("waits are 'poll until condition or generous deadline'; a missed deadline makes that schedule inconclusive (counted), never a verdict")
 	_ = os.Getenv
+}
+
+// pausingLog wraps the leader's log client: the first replication stream opened through it delivers
+// pauseAfter messages and then holds its next Recv until released (a slow or stalled stream).
+type pausingLog struct {
+	regattapb.LogClient
+	pauseAfter int
+	once       sync.Once
+	paused     chan struct{} // closed when the stream is held
+	release    chan struct{} // close to let it go on
+	ended      chan struct{} // closed when the held stream has delivered its last answer
+	streams    atomic.Int64
+}
+
+type pausingStream struct {
+	regattapb.Log_ReplicateClient
+	p *pausingLog
+	n int
+}
+
+func (s *pausingStream) Recv() (*regattapb.ReplicateResponse, error) {
+	if s.n == s.p.pauseAfter {
+		s.p.once.Do(func() { close(s.p.paused) })
+		<-s.p.release
+	}
+	s.n++
+	m, err := s.Log_ReplicateClient.Recv()
+	if err != nil {
+		select {
+		case <-s.p.ended:
+		default:
+			close(s.p.ended)
+		}
+	}
+	return m, err
+}
+
+func (p *pausingLog) Replicate(ctx context.Context, in *regattapb.ReplicateRequest, opts ...grpc.CallOption) (regattapb.Log_ReplicateClient, error) {
+	st, err := p.LogClient.Replicate(ctx, in, opts...)
+	if err != nil || p.streams.Add(1) > 1 {
+		return st, err // only the first stream is held
+	}
+	return &pausingStream{Log_ReplicateClient: st, p: p}, nil
+}
+
+// restartDuringPoll: the worker's own routines run (real Start); its first poll is held after
+// pauseAfter messages; the worker is closed - Close may return whenever it likes - and a new worker
+// for the same table catches up; then the held stream is let go. Whatever the old poll still does,
+// every leader command takes effect on the follower exactly once: the follower's content equals the
+// leader's at the follower's recorded index, which does not move backwards. The leader's history is
+// a chain of compare-and-swap transactions, so a command applied twice shows.
+func (p *pair) restartDuringPoll(pauseAfter int) (vs []viol, outcome string, inconclusive string) {
+	name := fmt.Sprintf("rs%d", tableSeq.Add(1))
+	for _, e := range []*engx.Engine{p.leader, p.follower} {
+		if _, err := e.CreateTable(name); err != nil {
+			return nil, "", "create: " + err.Error()
+		}
+		if err := e.WaitTable(name, 20*time.Second); err != nil {
+			return nil, "", err.Error()
+		}
+	}
+	defer func() {
+		_ = p.leader.DeleteTable(name)
+		_ = p.follower.DeleteTable(name)
+	}()
+	ctx := context.Background()
+	contents := map[uint64]string{}
+	var revs []uint64
+	prev := ""
+	for i := 1; i <= 12; i++ {
+		cur := fmt.Sprintf("v-%d", i)
+		cmp := Cmps(Cmp("cas", nil, regattapb.Compare_EQUAL, prev))
+		if i == 1 {
+			cmp = nil
+		}
+		c2, cancel := context.WithTimeout(ctx, 20*time.Second)
+		res, err := p.leader.Txn(c2, &regattapb.TxnRequest{Table: []byte(name), Compare: cmp, Success: Ops(OpPut("cas", cur, false), OpPut(fmt.Sprintf("k%02d", i), strings.Repeat("x", 120), false)), Failure: Ops(OpPut("cas", fmt.Sprintf("lost-update-%d", i), false))})
+		cancel()
+		if err != nil {
+			return nil, "", "leader txn: " + err.Error()
+		}
+		kvs, err := full(p.leader.Engine, name, true)
+		if err != nil {
+			return nil, "", "leader read: " + err.Error()
+		}
+		contents[res.Header.Revision] = fsmx.KVs(kvs)
+		revs = append(revs, res.Header.Revision)
+		prev = cur
+	}
+	conn := p.conns[300]
+	pl := &pausingLog{LogClient: regattapb.NewLogClient(conn), pauseAfter: pauseAfter, paused: make(chan struct{}), release: make(chan struct{}), ended: make(chan struct{})}
+	q := storage.NewNotificationQueue()
+	go q.Run()
+	defer q.Close()
+	w1 := replication.VerifNewStartableWorkerWithClients(p.follower.Engine, name, q, pl, regattapb.NewSnapshotClient(conn), 100*time.Millisecond, 50*time.Millisecond, 120*time.Second)
+	w1.Start()
+	released := false
+	letGo := func() {
+		if !released {
+			released = true
+			close(pl.release)
+		}
+	}
+	select {
+	case <-pl.paused:
+	case <-pl.ended:
+		// fewer messages than pauseAfter: the stream ended on its own, nothing was held
+		w1.Close()
+		return nil, fmt.Sprintf("pause-after=%d stream-shorter", pauseAfter), ""
+	case <-time.After(30 * time.Second):
+		letGo()
+		w1.Close()
+		return nil, "", "the first poll did not start in 30s"
+	}
+	closeDone := make(chan struct{})
+	go func() { w1.Close(); close(closeDone) }()
+	early := false
+	select {
+	case <-closeDone:
+		early = true // Close returned although the worker's poll is still in flight
+	case <-time.After(1500 * time.Millisecond):
+		letGo()
+		select {
+		case <-closeDone:
+		case <-time.After(60 * time.Second):
+			return nil, "", "Close did not return in 60s after the stream was let go"
+		}
+	}
+	// the restarted worker catches up
+	w2 := replication.VerifNewWorker(p.follower.Engine, name, regattapb.NewLogClient(conn), regattapb.NewSnapshotClient(conn), 30*time.Second, 60*time.Second)
+	for i := 0; i < 40; i++ {
+		res, err := w2.Poll()
+		if res == replication.VerifFollowerTailing {
+			break
+		}
+		if err != nil && res == replication.VerifUnknown {
+			letGo()
+			return nil, "", "poll: " + err.Error()
+		}
+	}
+	liBefore, err := leaderIndexOf(p.follower.Engine, name, true)
+	if err != nil {
+		letGo()
+		return nil, "", "follower index: " + err.Error()
+	}
+	if early {
+		letGo()
+		// the old poll (if it is still alive) goes on reading and proposing; it leaves its stream at
+		// the first empty answer without reading to the end, so there is no end-of-stream to wait
+		// for: give it a moment, then wait until the follower is quiet
+		select {
+		case <-pl.ended:
+		case <-time.After(300 * time.Millisecond):
+		}
+		last, stable := uint64(0), 0
+		for i := 0; i < 400 && stable < 25; i++ {
+			time.Sleep(10 * time.Millisecond)
+			t, err := p.follower.GetTable(name)
+			if err != nil {
+				continue
+			}
+			c2, cancel := context.WithTimeout(ctx, 5*time.Second)
+			li, err := t.LocalIndex(c2, true)
+			cancel()
+			if err == nil && li.Index == last {
+				stable++
+			} else if err == nil {
+				last, stable = li.Index, 0
+			}
+		}
+	}
+	liAfter, err := leaderIndexOf(p.follower.Engine, name, true)
+	if err != nil {
+		return nil, "", "follower index: " + err.Error()
+	}
+	kvs, err := full(p.follower.Engine, name, true)
+	if err != nil {
+		return nil, "", "follower read: " + err.Error()
+	}
+	if liAfter < liBefore {
+		vs = append(vs, viol{"worker-restart-during-poll/follower-leader-index-moved-backwards", fmt.Sprintf("%d after %d (first poll held after %d messages, Close returned early: %v)", liAfter, liBefore, pauseAfter, early)})
+	}
+	best := uint64(0)
+	for _, rv := range revs {
+		if rv <= liAfter && rv > best {
+			best = rv
+		}
+	}
+	if got, want := fsmx.KVs(kvs), contents[best]; got != want {
+		vs = append(vs, viol{"worker-restart-during-poll/follower-content-not-leader-content-at-recorded-index", fmt.Sprintf("first poll held after %d messages, Close returned while it was in flight: %v; recorded leader index %d: follower %s, leader had %s", pauseAfter, early, liAfter, trunc(got), trunc(want))})
+	}
+	return vs, fmt.Sprintf("pause-after=%d close-returned-early=%v li=%d", pauseAfter, early, liAfter), ""
+}
+
+func runRestartDuringPoll(r *evid.Run) {
+	p, err := newPair(0, []uint64{300})
+	if err != nil {
+		r.Inconcl.Add(1)
+		return
+	}
+	defer p.close()
+	var outcomes []string
+	for k := 1; k <= 6; k++ {
+		if r.Expired() {
+			r.Cap("deadline in the restart-during-poll part")
+			return
+		}
+		vs, outcome, inc := p.restartDuringPoll(k)
+		if inc != "" {
+			r.Inconcl.Add(1)
+			r.Extra("last_inconclusive", inc)
+			continue
+		}
+		r.Outcome("restart-during-poll "+outcome, true)
+		r.AddExtra("restart_during_poll_cases", 1)
+		outcomes = append(outcomes, outcome)
+		r.Extra("restart_during_poll_outcomes", outcomes)
+		for _, v := range vs {
+			r.Violate(v.sig, v.detail, map[string]any{"kind": "restart-during-poll", "pause_after": k})
+		}
+	}
 }
 
 func Replay(raw json.RawMessage) (string, bool) {
